@@ -27,6 +27,9 @@ def main():
         d = f"{SEEDED}/{sid}"
         meta = json.load(open(d + "/meta.json"))
         prop = meta["property"]
+        if meta.get("obsolete"):
+            results[sid] = {"property": prop, "status": "obsolete: " + meta["obsolete"][:120], "caught": None}
+            continue
         rev = "-R" if meta.get("apply_reversed") else ""
         r = sh(f"git -C /repo apply {rev} {d}/patch.diff")
         if r.returncode != 0:
@@ -51,9 +54,10 @@ def main():
         f.write("# Seeded changes versus the quick checks\n\nEach change is applied to /repo, the quick check of its property is run, the change is undone.\n\n| id | property | caught | rules that fired | first witness |\n|---|---|---|---|---|\n")
         for sid in sorted(results):
             r = results[sid]
-            f.write(f"| {sid} | {r['property']} | {'yes' if r.get('caught') else 'NO (' + str(r.get('status', r.get('exit_code'))) + ')'} | {', '.join(r.get('rules', []))} | {r.get('first_witness', '')[:160].replace('|', '/')} |\n")
+            f.write(f"| {sid} | {r['property']} | {'yes' if r.get('caught') else ('-- (' + str(r.get('status')) + ')' if r.get('caught') is None and r.get('status') else 'NO (' + str(r.get('status', r.get('exit_code'))) + ')')} | {', '.join(r.get('rules', []))} | {r.get('first_witness', '')[:160].replace('|', '/')} |\n")
     n = sum(1 for r in results.values() if r.get("caught"))
-    print(f"{n}/{len(results)} caught")
+    live = sum(1 for r in results.values() if r.get("caught") is not None)
+    print(f"{n}/{live} caught ({len(results) - live} obsolete)")
     return 0
 
 
